@@ -324,9 +324,10 @@ def mkcmp(op, a, b):
         r = {"Eq": x == y, "Ne": x != y, "Lt": x < y, "Le": x <= y, "Gt": x > y, "Ge": x >= y}[op]
         return Cond("true" if r else "false")
     # two structured values of the same type (derived / std equality: same variant and equal fields)
-    if isinstance(a, Agg) and isinstance(b, Agg) and a.adt == b.adt and op in ("Eq", "Ne"):
+    _same_adt = lambda p_, q_: p_ == q_ or (p_ or "").split("::")[-1] == (q_ or "").split("::")[-1]
+    if isinstance(a, Agg) and isinstance(b, Agg) and _same_adt(a.adt, b.adt) and op in ("Eq", "Ne"):
         def agg_eq(x, y):
-            if isinstance(x, Agg) and isinstance(y, Agg) and x.adt == y.adt:
+            if isinstance(x, Agg) and isinstance(y, Agg) and _same_adt(x.adt, y.adt):
                 if x.var != y.var:
                     return False
                 if set(x.fields) != set(y.fields):
